@@ -70,7 +70,7 @@ func c10Hash(c *Ctx, m *Module) {
 		return
 	}
 	l := loops[0]
-	var hphi, iphi *ssa.Phi
+	var hphi *ssa.Phi
 	for _, in := range l.header.Instrs {
 		if phi, ok := in.(*ssa.Phi); ok {
 			for i, e := range phi.Edges {
@@ -79,8 +79,6 @@ func c10Hash(c *Ctx, m *Module) {
 				}
 				if k, isC := intConst(e); isC && k == 2166136261 {
 					hphi = phi
-				} else if isC && k == 0 {
-					iphi = phi
 				}
 			}
 		}
@@ -126,12 +124,50 @@ func c10Hash(c *Ctx, m *Module) {
 		fail("xor does not involve the accumulator: " + describe(xorV))
 		return
 	}
-	// byteV = uint32(name[i]) with i the counted index over len(name): a BYTE index of the string parameter
+	// byteV = uint32(name[i]) with i running over 0 … len(name)-1: a BYTE index of the string
+	// parameter (directly, or of its []byte conversion), in a counted loop or a range loop
 	cv, isCv := strip(byteV).(*ssa.Convert)
-	okByte := false
+	var idx ssa.Value
 	if isCv {
-		if lk, ok := strip(cv.X).(*ssa.Index); ok && lk.X == ssa.Value(h.Params[0]) && iphi != nil && strip(lk.Index) == ssa.Value(iphi) {
-			okByte = true
+		switch x := strip(cv.X).(type) {
+		case *ssa.Index:
+			if x.X == ssa.Value(h.Params[0]) {
+				idx = strip(x.Index)
+			}
+		case *ssa.UnOp:
+			if ia, ok := x.X.(*ssa.IndexAddr); ok && x.Op == token.MUL {
+				if conv, ok := strip(ia.X).(*ssa.Convert); ok && conv.X == ssa.Value(h.Params[0]) && isByteSlice(conv.Type()) {
+					idx = strip(ia.Index)
+				}
+			}
+		}
+	}
+	// the index is the loop counter: phi(0, phi+1) itself, or phi+1 of phi(-1, phi+1) (range lowering)
+	okByte := false
+	counterOf := func(phi *ssa.Phi, init int64) bool {
+		okInit, okStep := false, false
+		for i, e := range phi.Edges {
+			if l.blocks[l.header.Preds[i]] {
+				bo, ok := strip(e).(*ssa.BinOp)
+				if ok && bo.Op == token.ADD && strip(bo.X) == ssa.Value(phi) {
+					if k, isC := intConst(bo.Y); isC && k == 1 {
+						okStep = true
+					}
+				}
+			} else if k, isC := intConst(e); isC && k == init {
+				okInit = true
+			}
+		}
+		return okInit && okStep && phi.Block() == l.header
+	}
+	switch x := idx.(type) {
+	case *ssa.Phi:
+		okByte = counterOf(x, 0)
+	case *ssa.BinOp:
+		if phi, ok := strip(x.X).(*ssa.Phi); ok && x.Op == token.ADD {
+			if k, isC := intConst(x.Y); isC && k == 1 {
+				okByte = counterOf(phi, -1)
+			}
 		}
 	}
 	if !okByte {
@@ -139,19 +175,9 @@ func c10Hash(c *Ctx, m *Module) {
 		return
 	}
 	cl := classifyLoop(l)
-	if cl.Kind != "counted" || !strings.Contains(cl.Detail, "builtin:len(param:name)") {
+	if (cl.Kind != "counted" && cl.Kind != "range") || !strings.Contains(cl.Detail, "param:name") {
 		fail("the loop must visit every byte index below len(name): " + cl.Kind + " " + cl.Detail)
 		return
-	}
-	// index steps by one from zero
-	for i, e := range iphi.Edges {
-		if l.blocks[l.header.Preds[i]] {
-			bo, ok := strip(e).(*ssa.BinOp)
-			if k, isC := intConst(bo.Y); !ok || bo.Op != token.ADD || !isC || k != 1 {
-				fail("index does not advance by one")
-				return
-			}
-		}
 	}
 	// result
 	numHash := m.ConstVal("internal/counter", "numHash")
@@ -391,10 +417,30 @@ func c10Alignment(c *Ctx, m *Module) {
 			}
 		}
 		r.Check("C10.alignment", "place/start is rounded to the record unit or the page", m.Pos(ret.Pos()), okStart, "got "+sd)
-		okEnd := false
-		if add, ok := strip(ret.Results[1]).(*ssa.BinOp); ok && add.Op == token.ADD && strip(add.X) == strip(ret.Results[0]) {
-			nd := describe(add.Y)
-			okEnd = nd == "internal/counter.round[uint32](conv<uint32>((16 + builtin:len(param:name))), 32)"
+		// end = start + size, either on the merged values or edge by edge when both were merged
+		// at the same join (end recomputed next to start on each path)
+		isEndOf := func(end, start ssa.Value) bool {
+			add, ok := strip(end).(*ssa.BinOp)
+			if !ok || add.Op != token.ADD {
+				return false
+			}
+			for _, pair := range [][2]ssa.Value{{add.X, add.Y}, {add.Y, add.X}} {
+				if strip(pair[0]) == strip(start) && describe(pair[1]) == "internal/counter.round[uint32](conv<uint32>((16 + builtin:len(param:name))), 32)" {
+					return true
+				}
+			}
+			return false
+		}
+		okEnd := isEndOf(ret.Results[1], ret.Results[0])
+		if ep, ok := strip(ret.Results[1]).(*ssa.Phi); ok && !okEnd {
+			if sp, ok := strip(ret.Results[0]).(*ssa.Phi); ok && sp.Block() == ep.Block() {
+				okEnd = true
+				for i := range ep.Edges {
+					if !isEndOf(ep.Edges[i], sp.Edges[i]) {
+						okEnd = false
+					}
+				}
+			}
 		}
 		r.Check("C10.alignment", "place/end = start + round(16+len(name), recordUnit)", m.Pos(ret.Pos()), okEnd, "got "+ed)
 	}
